@@ -1,10 +1,11 @@
 """C05 - the stationary bunch satisfies the Haissinski equation with its own wake (partial).
 
-Proved (Coq): force law of one step on the generated step order, scaling factor over the
-generated expression, the calculus identity.  Tie: translators Gen_StepOrder / Gen_WakeScale,
-one-step correspondence of the extracted model against the repo's ElectricField +
-WakePotentialMap + RFKickMap + DriftMap (+ FokkerPlanckMap applied, not modelled) wired as in
-main().  Explored only: the long-run residual of the Haissinski equation and the energy spread
+Proved (Coq): force law of one step on the generated step order for every bunch of an nb-bunch
+grid (over the generated update()/updateSM/apply definitions), scaling factor over the
+generated expression, the calculus identity.  Tie: translators Gen_StepOrder / Gen_WakeScale /
+Gen_WakeUpdate / Gen_KickIndex, one-step correspondence of the extracted model against the repo's
+ElectricField + WakePotentialMap + RFKickMap + DriftMap (+ FokkerPlanckMap applied, not modelled)
+wired as main() wires a filling pattern (1..3 bunches, buckets with gaps).  Explored only: the long-run residual of the Haissinski equation and the energy spread
 on the real binary (lib/haiss_explore.py)."""
 import math, os, tempfile, shutil
 from fractions import Fraction
@@ -282,10 +283,15 @@ def explore(ctx):
 
 
 def run(ctx, only=None):
-    ctx.rule = ("one-step cases: single bunch, n 12..24, it 2..4, transform length 32/48/64/128, impedance const (resistive) / "
-                "resistive wall / tabulated (resonator-like, non-zero above N/2), steps per period 30..2000, current scaled to a "
-                "potential-well distortion max|W|*delta/dtheta in 0.1..1.5, smooth blob inside a box; non-trivial row: stencils of "
-                "both kicks inside the grid and |t(x-xc)-W| and |W| > 10 tol. Long run: see explored_long_run.")
+    ctx.rule = ("one-step cases: 60 % single bunch (n 12..24), 40 % with 2 or 3 bunches (n 12..18) set up as main() sets up a filling "
+                "pattern: bucket numbers decreasing, 0..2 empty buckets, spacing_bins in [n,2n], unequal filling (shares differ by >= 25 %), "
+                "per-bunch blobs of different centre and width, transform length >= max(bucket)*spacing+n (powers of two, odd and other "
+                "lengths); it 2..4, single-bunch transform length 32/48/64/128, impedance const (resistive) / resistive wall / tabulated "
+                "(resonator-like, non-zero above N/2), steps per period 30..2000, current scaled to a potential-well distortion "
+                "max|W|*delta/dtheta in 0.1..1.5; non-trivial row (every bunch): stencils of both kicks inside the grid and |t(x-xc)-W_b| and "
+                "|W_b| > 10 tol; row-own-wake: row of a bunch b > 0 whose own wake differs from bunch 0's by > 10 tol; step-multibunch: "
+                "multi-bunch case whose wakes differ by > 10 wake tolerances. Long run: see explored_long_run (each bunch of the two-bunch "
+                "run judged on its own profile and wake).")
     coq = vp_coq.full_check("C05", ctx, fams=("haiss",))
     complete_axioms(ctx, coq)
     dis = []
@@ -312,22 +318,32 @@ def run(ctx, only=None):
         "exact-arithmetic model; float rounding carried by the exact stream (offset copy, RF offsets, table indices: bit equality) "
         "and the tolerance stream (grids: 16/40/64 * 2^-24 * max|data| after wake/RF/drift)",
         "rnd32 (Base/Float32.v) trusted, validated by the exact stream",
-        "wake reference: double-precision DFT of the implementation's padded profile with the implementation's impedance table; "
+        "wake reference: double-precision DFT of the padded multi-bunch train built here from the per-bunch projections (bunch b at "
+        "bucket_b*spacing) with the implementation's impedance table, read back at every bunch's bucket; "
         "tolerance (4 log2 N + 16) * 2^-24 * scaling * (|L_0| + 2 Sum|L_k|)",
+        "the wake potentials are inputs of the force-law model (that they are the convolution read at the bunch's bucket is C06); "
+        "RFKickMap::_calcKick and the DriftMap constructor are mirrored by hand, tied by the exact stream on every block",
         "Fokker-Planck map not modelled in this family (C04); only its effect on the global mean energy is checked",
         "PARTIAL: the long-run stationary state is explored on the binary, not proved",
     ]
-    # downgrade rule of DESIGN 2.2 for the scaling translator only: if it no longer recognises the source but the
-    # last-good generated expression (which the model and the theorems then use) still agrees, exactly, with the
-    # formula and, to 4 ulp, with getWakeScaling() on every case and with the recorded wake of the binary, the
-    # property is shown through tie 2 and the downgrade is recorded.  (No such fallback for the step order: the
-    # API harness applies the maps in the order it is given, so only the translator ties it to main().)
+    # downgrade rule of DESIGN 2.2 for the scaling translator and the update() translator: if one no longer recognises
+    # the source but the last-good generated definitions (which the model and the theorems then use) still agree with
+    # the implementation on every case - scaling: exactly with the formula and to 4 ulp with getWakeScaling(), and with
+    # the recorded wake of the binary; update(): the exact stream (offset vector of nb*n entries bit-equal to
+    # wakePotential() and to the model's generated copy, table indices of every block equal) and the grids of
+    # multi-bunch cases whose wakes differ (the block rule) - the property is shown through tie 2 and the downgrade is
+    # recorded.  (No such fallback for the step order: the API harness applies the maps in the order it is given, so
+    # only the translator ties it to main(); none for the index arithmetic of apply().)
     failed = [g for g, s in coq["gen"].items() if s.startswith("failed")]
-    if failed == ["Gen_WakeScale"] and coq["make_ok"] and coq["props"]["ok"] and not coq["forbidden"] \
+    mb_ok = any(k[0] == "step-multibunch" for k in ctx.nontrivial if isinstance(k, tuple))
+    can = {"Gen_WakeScale": True, "Gen_WakeUpdate": mb_ok and rows > 0}
+    if failed and all(can.get(g, False) for g in failed) and coq["make_ok"] and coq["props"]["ok"] and not coq["forbidden"] \
             and coq["extract_ok"] and not dis and not ctx.violations and ctx.evaluations > 0:
-        ctx.extra["translators"]["Gen_WakeScale"] = "downgraded-to-correspondence (" + coq["gen"]["Gen_WakeScale"][:200] + ")"
-        ctx.notes.append("Gen_WakeScale: translator failed, last-good expression validated against getWakeScaling() "
-                         "on every case and against the binary's recorded wake: downgraded to tie 2")
+        for g in failed:
+            ctx.extra["translators"][g] = "downgraded-to-correspondence (" + coq["gen"][g][:200] + ")"
+            ctx.notes.append("%s: translator failed, last-good definitions validated against the implementation on every "
+                             "one-step case (exact stream, multi-bunch grids) and against the binary's recorded wake: "
+                             "downgraded to tie 2" % g)
         coq = dict(coq, ok=True)
     conclude(ctx, coq, dis)
 
